@@ -265,7 +265,7 @@ func (g *G) FlowMod() (util.Message, *spec.Node) {
 	k := g.ListLen("ninstr", 8)
 	del := cmd == 3 || cmd == 4
 	for i := 0; i < k; i++ {
-		if g.Budget < 200 {
+		if g.Budget < 200 && (i >= 2 || g.Budget < 40) { // the budget is a size hint: a small one still allows two instructions
 			break
 		}
 		in, inn, name := g.Instr()
@@ -303,7 +303,7 @@ func (g *G) GroupMod() (util.Message, *spec.Node) {
 	g.Budget -= 16
 	k := g.ListLen("nbuckets", 12)
 	for i := 0; i < k; i++ {
-		if g.Budget < 200 {
+		if g.Budget < 200 && (i >= 2 || g.Budget < 40) {
 			break
 		}
 		b, bn := g.Bucket()
